@@ -29,12 +29,19 @@ Theorem C20_nested_seq_refuted :
 Proof. exact nested_seq_refuted. Qed.
 Print Assumptions C20_nested_seq_refuted.
 
-(* ... and holds exactly under the guard that seq makes no difference for the inner strings *)
+(* ... and holds under the guard that seq makes no difference for the inner strings *)
 Theorem C20_nested_equal_partial : forall p b,
   (forall s, In s (inner_strings p) -> symbols_B (PStr s) (SeqBool b) = symbols_B (PStr s) SeqAbsent) ->
   expand_A p (SeqBool b) = symbols_B p (SeqBool b).
 Proof. exact nested_equal_partial. Qed.
 Print Assumptions C20_nested_equal_partial.
+
+(* ... and the guard is minimal: whenever both return the same value, it holds *)
+Theorem C20_nested_guard_necessary : forall p b o,
+  expand_A p (SeqBool b) = Ok o -> symbols_B p (SeqBool b) = Ok o ->
+  forall s, In s (inner_strings p) -> symbols_B (PStr s) (SeqBool b) = symbols_B (PStr s) SeqAbsent.
+Proof. exact nested_guard_necessary. Qed.
+Print Assumptions C20_nested_guard_necessary.
 
 (* the hand-written scanner is the regular expression ([0-9]*:[0-9]+|[a-zA-Z]?:[a-zA-Z]) under
    a backtracking semantics (alternatives in order, greedy repetition), and so is the split *)
